@@ -22,7 +22,7 @@ def explore_config(prop: str, workers: int, max_fails: int, max_dev: int, max_de
     fix = False
     import time as _time
 
-    t0 = _time.time()
+    t0 = _time.process_time()
     stop = False
     while frontier and not stop:
         if depth >= max_depth:
@@ -50,7 +50,7 @@ def explore_config(prop: str, workers: int, max_fails: int, max_dev: int, max_de
                         )
                 if any(k.startswith(prefix) for k, _ in mon.violations) and len(acc.violations) >= 6:
                     stop = True  # this configuration has failed; more histories add nothing
-                if _time.time() - t0 > 240:
+                if _time.process_time() - t0 > 240:
                     acc.cap(f"time budget exhausted for workers={workers} max_fails={max_fails}")
                     stop = True
                 if stop:
@@ -99,7 +99,7 @@ def explore_long(prop: str, workers: int, max_fails: int, depth: int, acc: Acc) 
     prefix = prop + ":"
     import time as _time
 
-    t0 = _time.time()
+    t0 = _time.process_time()
     stack: List[List[Dict[str, Any]]] = [[c] for c in reversed(LONG_ALPHABET)]
     while stack:
         h = stack.pop()
@@ -122,7 +122,7 @@ def explore_long(prop: str, workers: int, max_fails: int, depth: int, acc: Acc) 
             continue
         if hit or len(h) >= depth:
             continue
-        if _time.time() - t0 > 200:
+        if _time.process_time() - t0 > 200:
             acc.cap(f"time budget exhausted in the long-history pass for workers={workers} max_fails={max_fails}")
             break
         for c in reversed(LONG_ALPHABET):
